@@ -1004,6 +1004,59 @@ def gen_more_shapes(repo):
     return shape_file('clastic/render/simple.py, clastic/application.py, clastic/middleware/stats.py', items)
 
 
+def gen_mw_shape(repo):
+    """the request / render functions of the built-in middlewares that Model/Mw.v treats as transformers of the inner
+    outcome (gzip, cache, profiler, cookie) or as pass-through (script root, GET / POST parameters, context processors)"""
+    items = []
+    for rel, cls, fns in (('clastic/middleware/compress.py', 'GzipMiddleware', ['request']),
+                          ('clastic/middleware/client_cache.py', 'HTTPCacheMiddleware', ['request']),
+                          ('clastic/middleware/profile.py', 'SimpleProfileMiddleware', ['request']),
+                          ('clastic/middleware/cookie.py', 'SignedCookieMiddleware', ['request']),
+                          ('clastic/middleware/cookie.py', 'JSONCookie', ['quote', 'unquote', 'unserialize', 'set_expires']),
+                          ('clastic/middleware/url.py', 'ScriptRootMiddleware', ['request']),
+                          ('clastic/middleware/url.py', 'GetParamMiddleware', ['request']),
+                          ('clastic/middleware/form.py', 'PostDataMiddleware', ['request']),
+                          ('clastic/middleware/context.py', 'ContextProcessor', ['_create_render'])):
+        c = find_class(parse(repo, rel), cls)
+        for f in fns:
+            items.append(('%s_%s' % (cls.upper(), f.strip('_').upper()), skeleton_of(find_def(c.body, f))))
+    return shape_file('clastic/middleware/*.py', items)
+
+
+def gen_misc_shape(repo):
+    """errors.py (C08/C09), static.py (C14), meta.py (C18), flaw.py (C20): the functions the hand-written models and the
+    regenerated tables of these properties describe, statement by statement"""
+    items = []
+    errors = parse(repo, 'clastic/errors.py')
+    he = find_class(errors, 'HTTPException')
+    for f in ['__init__', 'adapt', 'to_dict', 'to_escaped_dict', 'to_json', 'to_text', 'to_html', 'to_xml']:
+        items.append(('HTTPEXCEPTION_' + f.strip('_').upper(), skeleton_of(find_def(he.body, f))))
+    ise = find_class(errors, 'InternalServerError')
+    for f in ['__init__', 'to_dict']:
+        items.append(('INTERNALSERVERERROR_' + f.strip('_').upper(), skeleton_of(find_def(ise.body, f))))
+    eh = find_class(errors, 'ErrorHandler')
+    for f in ['render_error', 'uncaught_to_response']:
+        items.append(('ERRORHANDLER_' + f.upper(), skeleton_of(find_def(eh.body, f))))
+    static = parse(repo, 'clastic/static.py')
+    for f in ['is_binary_string', 'peek_file', 'find_file', 'get_file_mtime', 'build_file_response']:
+        items.append(('STATIC_' + f.upper(), skeleton_of(module_def(static, f))))
+    sa = find_class(static, 'StaticApplication')
+    for f in ['__init__', 'get_file_response']:
+        items.append(('STATICAPPLICATION_' + f.strip('_').upper(), skeleton_of(find_def(sa.body, f))))
+    meta = parse(repo, 'clastic/meta.py')
+    for f in ['_trunc', 'get_resource_info', 'get_mw_infos', 'get_route_infos']:
+        items.append(('META_' + f.strip('_').upper(), skeleton_of(module_def(meta, f))))
+    rp = find_class(meta, 'ResourcePeripheral')
+    items.append(('RESOURCEPERIPHERAL_GET_CONTEXT', skeleton_of(find_def(rp.body, 'get_context'))))
+    ma = find_class(meta, 'MetaApplication')
+    for f in ['get_main', 'render_main_page_html']:
+        items.append(('METAAPPLICATION_' + f.upper(), skeleton_of(find_def(ma.body, f))))
+    flaw = parse(repo, 'clastic/flaw.py')
+    for f in ['create_app', 'get_flaw_info', '_filter_site_files']:
+        items.append(('FLAW_' + f.strip('_').upper(), skeleton_of(module_def(flaw, f))))
+    return shape_file('clastic/errors.py, clastic/static.py, clastic/meta.py, clastic/flaw.py', items)
+
+
 def gen_route_shape(repo):
     """route.py: the assembly of the route regex and the converters that Model/RouteRx.v, Model/Match.v and
     Proofs/ConvertProofs.v transcribe by hand"""
@@ -1030,6 +1083,8 @@ GENERATORS = {
     'ReservoirGen.v': gen_reservoir,
     'DispatchShape.v': gen_dispatch_shape,
     'RouteShape.v': gen_route_shape,
+    'MwShape.v': gen_mw_shape,
+    'MiscShape.v': gen_misc_shape,
     'ChainShape.v': gen_chain_shape,
     'WorldShape.v': gen_world_shape,
     'MoreShapes.v': gen_more_shapes,
